@@ -901,6 +901,83 @@ fn ns_att_name(input: &str) -> IResult<&str, model::AttributeName<'_>> {
 
 // -----------------------------------------------------------------------------------------------
 
+/// Verification hook: runs one (possibly private) production on `input` and reports the
+/// number of bytes it consumed, or `Err(())` when it fails.  `None` for an unknown name.
+#[cfg(feature = "verif")]
+pub fn verif_production(production: &str, input: &str) -> Option<Result<usize, ()>> {
+    fn run<O, E>(input: &str, r: Result<(&str, O), E>) -> Result<usize, ()> {
+        r.map(|(rest, _)| input.len() - rest.len()).map_err(|_| ())
+    }
+    Some(match production {
+        "document" => run(input, document(input)),
+        "name" => run(input, name(input)),
+        "entity_value" => run(input, entity_value(input)),
+        "att_value" => run(input, att_value(input)),
+        "system_literal" => run(input, system_literal(input)),
+        "pubid_literal" => run(input, pubid_literal(input)),
+        "char_data" => run(input, char_data(input)),
+        "comment" => run(input, comment(input)),
+        "pi" => run(input, pi(input)),
+        "pi_target" => run(input, pi_target(input)),
+        "cdsect" => run(input, cdsect(input)),
+        "prolog" => run(input, prolog(input)),
+        "xml_decl" => run(input, xml_decl(input)),
+        "version_info" => run(input, version_info(input)),
+        "eq" => run(input, eq(input)),
+        "version_num" => run(input, version_num(input)),
+        "misc" => run(input, misc(input)),
+        "doctype_decl" => run(input, doctype_decl(input)),
+        "decl_sep" => run(input, decl_sep(input)),
+        "int_subset" => run(input, int_subset(input)),
+        "markup_decl" => run(input, markup_decl(input)),
+        "sd_decl" => run(input, sd_decl(input)),
+        "element" => run(input, element(input)),
+        "stag" => run(input, stag(input)),
+        "attribute" => run(input, attribute(input)),
+        "etag" => run(input, etag(input)),
+        "content" => run(input, content(input)),
+        "empty_entity_tag" => run(input, empty_entity_tag(input)),
+        "element_decl" => run(input, element_decl(input)),
+        "content_spec" => run(input, content_spec(input)),
+        "children" => run(input, children(input)),
+        "cp" => run(input, cp(input)),
+        "choice" => run(input, choice(input)),
+        "seq" => run(input, seq(input)),
+        "mixed" => run(input, mixed(input)),
+        "attlist_decl" => run(input, attlist_decl(input)),
+        "att_def" => run(input, att_def(input)),
+        "att_type" => run(input, att_type(input)),
+        "enumerated_type" => run(input, enumerated_type(input)),
+        "notation_type" => run(input, notation_type(input)),
+        "enumeration" => run(input, enumeration(input)),
+        "default_decl" => run(input, default_decl(input)),
+        "char_ref" => run(input, char_ref(input)),
+        "reference" => run(input, reference(input)),
+        "entity_ref" => run(input, entity_ref(input)),
+        "pe_reference" => run(input, pe_reference(input)),
+        "entity_decl" => run(input, entity_decl(input)),
+        "ge_decl" => run(input, ge_decl(input)),
+        "pe_decl" => run(input, pe_decl(input)),
+        "entity_def" => run(input, entity_def(input)),
+        "pe_def" => run(input, pe_def(input)),
+        "external_id" => run(input, external_id(input)),
+        "ndata_decl" => run(input, ndata_decl(input)),
+        "encoding_decl" => run(input, encoding_decl(input)),
+        "enc_name" => run(input, enc_name(input)),
+        "notation_decl" => run(input, notation_decl(input)),
+        "public_id" => run(input, public_id(input)),
+        "ns_att_name" => run(input, ns_att_name(input)),
+        "multichar0" => run(input, multichar0::<&str, nom::error::Error<&str>>(input)),
+        "multinamestartchar0" => run(input, multinamestartchar0::<&str, nom::error::Error<&str>>(input)),
+        "multinamechar0" => run(input, multinamechar0::<&str, nom::error::Error<&str>>(input)),
+        "nmtoken" => run(input, nmtoken::<&str, nom::error::Error<&str>>(input)),
+        "multipubidchar0" => run(input, multipubidchar0::<&str, nom::error::Error<&str>>(input)),
+        _ => return None,
+    })
+}
+
+// -----------------------------------------------------------------------------------------------
+
 #[cfg(test)]
 mod tests {
     use super::*;
